@@ -124,6 +124,7 @@ class Runner:
         self.known = []
         self.id_reused = [False, False]
         self.dead_ids = set()
+        self.tainted = []  # state index -> a cached array of this state (or of an ancestor) aliased another state's variable
         self.trace = []
 
     def fresh_state(self, st):
@@ -136,6 +137,20 @@ class Runner:
         self.states.append(self.models[0].state(q, p))
         self.readonly.append(False)
         self.known.append([set(), set()])
+        self.tainted.append(False)
+
+    def scan_aliases(self) -> None:
+        """Mark states whose cache holds an array that is (part of) another state's variable array."""
+        for s, st in enumerate(self.states):
+            if self.tainted[s]:
+                continue
+            others = [getattr(o, v) for j, o in enumerate(self.states) if j != s for v in ("pos", "mom")
+                      if isinstance(getattr(o, v), np.ndarray)]
+            for val in st._cache.values():  # noqa: SLF001
+                if isinstance(val, np.ndarray) and any(np.shares_memory(val, o) for o in others):
+                    self.tainted[s] = True
+                    self.obs.count("alias_created")
+                    break
 
     # ------------------------------------------------------------------ operations
     def op_call(self, s, method, which) -> None:
@@ -161,6 +176,21 @@ class Runner:
         if self.monitor == "c09":
             self.judge_transparency(s, which, method, got)
 
+    def classify(self, s, which, what) -> str:
+        """Mechanism key of a transparency mismatch on state s / system `which`."""
+        cname = type(self.models[which].system).__name__
+        st = self.states[s]
+        others = [getattr(o, v) for j, o in enumerate(self.states) if j != s for v in ("pos", "mom")
+                  if isinstance(getattr(o, v), np.ndarray)]
+        for val in st._cache.values():  # noqa: SLF001
+            if isinstance(val, np.ndarray) and any(np.shares_memory(val, o) for o in others):
+                return f"cached-value-aliases-other-state-array:{cname}.{what}"
+        if self.tainted[s]:  # the alias was created earlier (e.g. before a pickle round trip froze the mutated value)
+            return f"cached-value-aliases-other-state-array:{cname}.{what}"
+        if self.id_reused[which]:
+            return f"stale-after-system-id-reuse:{cname}"
+        return f"stale-cache:{cname}.{what}"
+
     def judge_transparency(self, s, which, method, got) -> None:
         model = self.models[which]
         st = self.states[s]
@@ -171,18 +201,7 @@ class Runner:
         self.obs.count("calls_compared")
         cname = type(model.system).__name__
         if a.shape != b.shape or not np.allclose(a, b, rtol=1e-13, atol=0, equal_nan=True):
-            alias = False
-            if isinstance(got, np.ndarray):
-                for j, other in enumerate(self.states):
-                    if j != s and any(isinstance(getattr(other, v), np.ndarray) and np.shares_memory(got, getattr(other, v))
-                                      for v in ("pos", "mom")):
-                        alias = True
-            if alias:
-                key = f"cached-value-aliases-other-state-array:{cname}.{method}"
-            elif self.id_reused[which]:
-                key = f"stale-after-system-id-reuse:{cname}"
-            else:
-                key = f"stale-cache:{cname}.{method}"
+            key = self.classify(s, which, method)
             self.obs.violation(key, f"{cname}.{method} on state {s} (system {which}) returned {a!r} but evaluation from scratch on the "
                                     f"current variable values gives {b!r}; history so far: {self.trace}")
         elif not np.array_equal(a, b, equal_nan=True):
@@ -247,6 +266,7 @@ class Runner:
         self.states.append(self.states[s].copy(read_only=read_only))
         self.readonly.append(read_only)
         self.known.append([set(k) for k in self.known[s]])
+        self.tainted.append(self.tainted[s])
 
     def op_pickle(self, s) -> None:
         st2 = pickle.loads(pickle.dumps(self.states[s]))  # noqa: S301
@@ -274,7 +294,7 @@ class Runner:
         if self.monitor == "c09":
             for v in ("pos", "mom"):
                 if not np.allclose(getattr(st, v), getattr(ref, v), rtol=1e-13, atol=0):
-                    self.obs.violation(f"stale-cache:{type(model.system).__name__}.{which_flow}",
+                    self.obs.violation(self.classify(s, 0, which_flow),
                                        f"{which_flow}({t}) on a state with history gives {v}={getattr(st, v)!r}, on a fresh state "
                                        f"{getattr(ref, v)!r}; history: {self.trace}")
         # flows assign pos/mom: h1_flow -> mom only; h2_flow -> pos (and mom for Gaussian)
@@ -315,4 +335,6 @@ class Runner:
                 self.op_flow(op[1], op[2], op[3])
             elif kind == "newsys":
                 self.op_newsys(op[1])
+            if kind in ("copy", "call", "flow"):
+                self.scan_aliases()
             self.obs.count(f"op.{kind}")
